@@ -153,7 +153,264 @@ def fam_bad_condition(rng):
     return ops
 
 
-FAMILIES = [fam_nested_sub, fam_path, fam_path, fam_bad_condition, fam_strict, fam_spellings, fam_subclass, fam_subclass, fam_subtype, fam_bind]
+# ---------------------------------------------------------------------------------------------------------------------------
+# classes that are their own dumper / loader (DumpMixin / LoadMixin subclasses with overridden hooks)
+
+# value kind -> annotation, constructor arguments of a value (also of a user subtype of the kind), JSON inputs,
+#               (dump hook, bodies of overrides), (load hook, bodies of overrides)
+HOOK_KINDS = {
+    'str': dict(ann='str', args=['"abc"', '"Xy z"'], docs=['abc', 'Q', 5],
+                dump=('dump_with_str', ['return o.upper()', 'return "<" + o + ">"']),
+                load=('load_to_str', ['return base_type(str(o) + "!")', 'return base_type(str(o).upper())'])),
+    'int': dict(ann='int', args=['7', '0'], docs=[3, '4', 2.0],
+                dump=('dump_with_int', ['return int(o) + 1000', 'return -int(o)']),
+                load=('load_to_int', ['return base_type(int(o) + 500)', 'return base_type(-int(o))'])),
+    'float': dict(ann='float', args=['1.5', '0.25'], docs=[1.5, '2.5', 3],
+                  dump=('dump_with_float', ['return float(o) * 2', 'return str(float(o))']),
+                  load=('load_to_float', ['return base_type(float(o) + 0.5)', 'return base_type(float(o) * 4)'])),
+    'decimal': dict(ann='Decimal', args=['"1.50"', '"2"'], docs=['1.5', 2, '3.25'],
+                    dump=('dump_with_decimal', ['return "D" + str(o)', 'return float(o)']),
+                    load=('load_to_decimal', ['return base_type(str(o)) + 1', 'return base_type(str(o)) * 2'])),
+    'datetime': dict(ann='datetime', args=['2021, 3, 4, 5, 6, 7', '2020, 1, 1'], docs=['2021-03-04T05:06:07', '2020-01-01T00:00:00Z', 86400],
+                     dump=('dump_with_datetime', ['return o.year', 'return o.strftime("%Y/%m/%d")']),
+                     load=('load_to_datetime', ['return base_type(2000, 1, 1)', 'return base_type(1999, 12, 31, 23)'])),
+    'date': dict(ann='date', args=['2021, 3, 4', '2020, 1, 1'], docs=['2021-03-04', '2020-01-01'],
+                 dump=('dump_with_date', ['return o.toordinal()', 'return o.strftime("%d.%m.%Y")']),
+                 load=('load_to_date', ['return base_type(2000, 1, 1)', 'return base_type(1999, 12, 31)'])),
+    'uuid': dict(ann='UUID', args=['int=5', 'int=77'], docs=['00000000-0000-0000-0000-000000000005', '0000000000000000000000000000004d'],
+                 dump=('dump_with_uuid', ['return str(o)', 'return o.int']),
+                 load=('load_to_uuid', ['return base_type(int=1)', 'return base_type(int=2)'])),
+}
+
+
+def _hook_src(name, body, load):
+    sig = '(o, base_type, *_)' if load else '(o, *_)'
+    return f'    @staticmethod\n    def {name}{sig}:\n        {body}\n'
+
+
+def fam_hooks(rng):
+    """a base class that is its own dumper and / or loader (DumpMixin / LoadMixin) and a subclass of it, each overriding some
+    type hooks; fields hold plain values and values of user subtypes (which the dumper resolves at run time and caches per
+    dumper); the subclass is defined before, or only after, the base class was used"""
+    b, s = model.fresh('HB'), model.fresh('HS')
+    side = rng.choice(['dump', 'dump', 'load', 'both'])
+    mixins = {'dump': ['DumpMixin'], 'load': ['LoadMixin'], 'both': ['LoadMixin', 'DumpMixin']}[side]
+    rng.shuffle(mixins)
+    kinds = rng.sample(sorted(HOOK_KINDS), rng.randint(1, 3))
+    subty = {k: model.fresh('Sub' + k.capitalize()) for k in kinds}      # user subtypes of the value kinds
+    # annotate a field with the user subtype itself now and then (the loader resolves the hook of a subtype annotation)
+    ann_sub = {k: ('load' in side or side == 'both') and rng.random() < 0.4 for k in kinds}
+    imports = 'from dataclass_wizard import DumpMixin, LoadMixin\n'
+    pre = imports + ''.join(f'class {subty[k]}({HOOK_KINDS[k]["ann"]}):\n    pass\n\n' for k in kinds)
+
+    def overrides(p):
+        out = ''
+        for k in kinds:
+            if side in ('dump', 'both') and rng.random() < p:
+                nm, bodies = HOOK_KINDS[k]['dump']
+                out += _hook_src(nm, rng.choice(bodies), False)
+            if side in ('load', 'both') and rng.random() < p:
+                nm, bodies = HOOK_KINDS[k]['load']
+                out += _hook_src(nm, rng.choice(bodies), True)
+        return out
+    flds = ''.join(f'    f_{k}: {subty[k] if ann_sub[k] else HOOK_KINDS[k]["ann"]}\n' for k in kinds)
+    base_src = pre + f'@dataclass\nclass {b}(JSONWizard, {", ".join(mixins)}):\n{flds}{overrides(0.35)}'
+    sub_src = f'@dataclass\nclass {s}({b}):\n    extra_val: int = 1\n{overrides(0.8)}'
+
+    def value(k):
+        ctor = subty[k] if (ann_sub[k] or rng.random() < 0.6) else HOOK_KINDS[k]['ann']
+        return f'{ctor}({rng.choice(HOOK_KINDS[k]["args"])})'
+
+    def use(c):
+        both = [c, b] if c != b else [b]
+        if side == 'dump' or (side == 'both' and rng.random() < 0.5):
+            args = ', '.join(f'f_{k}={value(k)}' for k in kinds)
+            return {'op': 'dumpnew', 'cls': c, 'expr': f'{c}({args})', 'via': rng.choice(['asdict', 'method', 'to_json']), 'uses': both}
+        doc = {f'f_{k}': rng.choice(HOOK_KINDS[k]['docs']) for k in kinds}
+        return {'op': 'load', 'cls': c, 'doc': doc, 'via': rng.choice(['fromdict', 'method', 'json']), 'uses': both}
+    ops = [{'op': 'src', 'src': base_src, 'defines': [b] + list(subty.values())}]
+    sub_def = {'op': 'src', 'src': sub_src, 'defines': [s], 'requires': [b]}
+    late = rng.random() < 0.7
+    if not late:
+        ops.append(sub_def)
+    for _ in range(rng.randint(1, 3) if late else rng.randint(0, 2)):
+        ops.append(use(b))
+    if late:
+        ops.append(sub_def)
+    for _ in range(rng.randint(2, 5)):
+        ops.append(use(s if rng.random() < 0.7 else b))
+    return ops
+
+
+# ---------------------------------------------------------------------------------------------------------------------------
+# LoadMeta / DumpMeta bound at any point before the first load / dump -- possibly after operations of the other kind
+
+LOAD_ONLY_METAS = [{'raise_on_unknown_json_key': True}, {'key_transform': 'CAMEL'}, {'key_transform': 'NONE'}, {'key_transform': 'PASCAL'},
+                   {'raise_on_unknown_json_key': True, 'key_transform': 'SNAKE'}]
+DUMP_ONLY_METAS = [{'key_transform': 'SNAKE'}, {'key_transform': 'PASCAL'}, {'marshal_date_time_as': 'TIMESTAMP'}, {'skip_defaults': True},
+                   {'key_transform': 'LISP', 'skip_defaults': True}]
+BOTH_SIDES_METAS = [{'auto_assign_tags': True}, {'auto_assign_tags': True}, {'auto_assign_tags': True, 'tag_key': 'kind'}, {'tag_key': 'kind'}]
+
+
+def fam_bind_late(rng):
+    """a class (plain or JSONWizard, flat / nesting a dataclass / a list of them / a Union of two) whose load-only settings are bound
+    with LoadMeta somewhere before its first load and whose dump-only settings are bound with DumpMeta somewhere before its first
+    dump, so that a bind can follow operations of the other kind; settings that concern both directions (tags) come first"""
+    o, a, b = model.fresh('BO'), model.fresh('BA'), model.fresh('BB')
+    shape = rng.choice(['union', 'union', 'single', 'list', 'flat', 'optional'])
+    wizard = rng.random() < 0.4
+    both = copy.deepcopy(rng.choice(BOTH_SIDES_METAS)) if (shape == 'union' and rng.random() < 0.8) or rng.random() < 0.4 else None
+    inner = ''
+    if wizard and both and rng.random() < 0.5:
+        inner = '    class _(JSONWizard.Meta):\n' + ''.join(f'        {k} = {v!r}\n' for k, v in both.items())
+    item = {'union': f'    item: Union[{a}, {b}]\n', 'single': f'    item: {a}\n', 'list': f'    item: list[{a}] = field(default_factory=list)\n',
+            'optional': f'    item: Optional[{b}] = None\n', 'flat': ''}[shape]
+    if shape in ('list', 'optional'):
+        fields = f'    my_count: int\n    when_at: Optional[datetime] = None\n{item}'
+    else:
+        fields = f'{item}    my_count: int = 0\n    when_at: Optional[datetime] = None\n'
+    src = (f'@dataclass\nclass {a}:\n    x_val: int = 0\n    seen_at: Optional[datetime] = None\n\n'
+           f'@dataclass\nclass {b}:\n    y_txt: str = "y"\n\n'
+           f'@dataclass\nclass {o}{"(JSONWizard)" if wizard else ""}:\n{inner}{fields}')
+    ops = [{'op': 'src', 'src': src, 'defines': [o, a, b]}]
+    if both and not inner:
+        ops.append({'op': 'bind', 'cls': o, 'kind': rng.choice(['load', 'dump']), 'meta': both})
+    tag_key = (both or {}).get('tag_key', '__tag__')
+
+    def item_doc():
+        which = rng.choice([a, b]) if shape == 'union' else b if shape == 'optional' else a
+        d = rng.choice([{'x_val': 1}, {'xVal': 2, 'seenAt': '2020-01-01T00:00:00Z'}, {'x_val': 3, 'zz_top': 1}]) if which == a else \
+            rng.choice([{'y_txt': 'q'}, {'yTxt': 'r'}, {'y_txt': 's', 'zzTop': 2}])
+        d = dict(d)
+        if shape == 'union' and rng.random() < 0.85:
+            d[tag_key] = which
+        return d
+
+    def item_expr():
+        return rng.choice([f'{a}(x_val=1)', f'{a}(x_val=2, seen_at={DT})', f'{b}(y_txt="q")', f'{b}()'] if shape == 'union' else
+                          [f'{b}(y_txt="q")', f'{b}()'] if shape == 'optional' else [f'{a}(x_val=1)', f'{a}()', f'{a}(x_val=2, seen_at={DT})'])
+    uses = {'uses': [o, a, b]}
+    seq = []
+    for _ in range(rng.randint(3, 7)):
+        if rng.random() < 0.5:
+            doc = dict(rng.choice([{'my_count': 1}, {'myCount': 2}, {'MyCount': 3, 'whenAt': '2020-01-01T00:00:00Z'}, {'my_count': 4, 'bogus': True},
+                                   {'myCount': 5, 'extraKey': 1}]))
+            if shape in ('union', 'single') or (shape in ('list', 'optional') and rng.random() < 0.7):
+                doc['item'] = [item_doc() for _ in range(rng.randint(1, 2))] if shape == 'list' else item_doc()
+            seq.append(dict({'op': 'load', 'cls': o, 'doc': doc, 'via': rng.choice(['fromdict', 'fromlist'] + (['method', 'json'] if wizard else []))}, **uses))
+        else:
+            args = [f'my_count={rng.choice([0, 1])}', f'when_at={rng.choice(["None", DT])}']
+            if shape in ('union', 'single') or (shape in ('list', 'optional') and rng.random() < 0.7):
+                args.append(f'item=[{item_expr()}]' if shape == 'list' else f'item={item_expr()}')
+            seq.append(dict({'op': 'dump', 'cls': o, 'expr': f'{o}({", ".join(args)})', 'via': rng.choice(['asdict'] + (['method', 'to_json'] if wizard else []))}, **uses))
+    # a bind goes anywhere before the first operation of its own kind
+    for kind, pool, p in (('load', LOAD_ONLY_METAS, 0.8), ('dump', DUMP_ONLY_METAS, 0.6)):
+        if rng.random() < p:
+            first = next((j for j, x in enumerate(seq) if x['op'] == kind), len(seq))
+            # ... as late as possible half of the time (the other kind of operation has then run as often as it can)
+            at = first if rng.random() < 0.5 else rng.randint(0, first)
+            seq.insert(at, {'op': 'bind', 'cls': o, 'kind': kind, 'meta': copy.deepcopy(rng.choice(pool))})
+    return ops + seq
+
+
+# ---------------------------------------------------------------------------------------------------------------------------
+# inheritance chains on either engine; every class of the chain is defined up front or only after its ancestors were used
+
+V1_CASES = [None, 'AUTO', 'CAMEL', 'SNAKE', 'PASCAL']
+# per level: (field, annotation, default source, JSON inputs, constructor argument sources)
+LEVEL_FIELDS = [[('base_val', 'int', None, [1, '2'], ['1', '3'])],
+                [('sub_val', 'int', '7', [5, 6], ['4', '7']), ('other_txt', 'str', '"s"', ['z', 'w'], ['"t"', '"s"'])],
+                [('third_num', 'float', '0.5', [1.5, 2], ['2.5', '0.5'])]]
+
+
+def _spell(name, style):
+    parts = name.split('_')
+    return {'SNAKE': name, 'CAMEL': parts[0] + ''.join(x.title() for x in parts[1:]), 'PASCAL': ''.join(x.title() for x in parts),
+            'LISP': '-'.join(parts)}[style]
+
+
+def fam_inherit(rng):
+    """a chain P <- Q (<- R) of dataclasses on the default engine, on the v1 engine through an inner Meta, or on the v1 engine through
+    LoadMeta(v1=True) bound to plain classes; each subclass is defined at a random point (up front, or after its ancestors have been
+    loaded / dumped), optionally with a Meta of its own; every class of the chain is then loaded and dumped in random order through
+    every entry point (fromdict / fromlist / from_dict / from_list / from_json)"""
+    depth = rng.choice([2, 2, 3])
+    names = [model.fresh(x) for x in ('IP', 'IQ', 'IR')[:depth]]
+    engine = rng.choice(['default', 'v1', 'v1', 'v1-bind', 'v1-bind'])
+    wizard = engine == 'v1' or (engine == 'default' and rng.random() < 0.6)
+    case = rng.choice(V1_CASES)
+    srcs = []
+    for lv, nm in enumerate(names):
+        base = names[lv - 1] if lv else ('JSONWizard' if wizard else '')
+        meta = ''
+        if wizard and (lv == 0 or rng.random() < 0.25):
+            items = []
+            if engine == 'v1':
+                items.append('v1 = True')
+                c = case if lv == 0 else rng.choice(V1_CASES)
+                if c:
+                    items.append(f'v1_key_case = {c!r}')
+            elif rng.random() < 0.5:
+                items.append(f'key_transform_with_dump = {rng.choice(["SNAKE", "PASCAL", "LISP"])!r}')
+            if rng.random() < 0.2:
+                items.append('raise_on_unknown_json_key = True' if engine != 'v1' else 'v1_on_unknown_key = "RAISE"')
+            if items:
+                meta = '    class _(JSONWizard.Meta):\n' + ''.join(f'        {x}\n' for x in items)
+        flds = ''.join(f'    {f}: {ty}' + (f' = {d}' if d is not None else '') + '\n' for f, ty, d, _, _ in LEVEL_FIELDS[lv])
+        srcs.append({'op': 'src', 'src': f'@dataclass\nclass {nm}{"(" + base + ")" if base else ""}:\n{meta}{flds}', 'defines': [nm],
+                     'requires': names[:lv]})
+    binds = {}
+    if engine == 'v1-bind':
+        for lv, nm in enumerate(names):
+            if lv == 0 or rng.random() < 0.75:
+                m = {'v1': True}
+                c = case if rng.random() < 0.7 else rng.choice(V1_CASES)
+                if c:
+                    m['v1_key_case'] = c
+                binds[nm] = {'op': 'bind', 'cls': nm, 'kind': 'load', 'meta': m}
+
+    def use(lv):
+        nm = names[lv]
+        uses = {'uses': names[:lv + 1][::-1]}
+        if rng.random() < 0.65:
+            doc = {}
+            for l2 in range(lv + 1):
+                for f, _, d, vals, _ in LEVEL_FIELDS[l2]:
+                    if d is None or rng.random() < 0.8:
+                        doc[_spell(f, rng.choice(['SNAKE', 'SNAKE', 'CAMEL', 'PASCAL']))] = rng.choice(vals)
+            if rng.random() < 0.15:
+                doc['zz_key'] = 1
+            via = rng.choice(['fromdict', 'fromlist'] + (['method', 'method', 'method_list', 'json', 'json_list'] if wizard else []))
+            return dict({'op': 'load', 'cls': nm, 'doc': doc, 'via': via}, **uses)
+        args = []
+        for l2 in range(lv + 1):
+            for f, _, d, _, ctor in LEVEL_FIELDS[l2]:
+                if d is None or rng.random() < 0.6:
+                    args.append(f'{f}={rng.choice(ctor)}')
+        via = rng.choice(['asdict'] + (['method', 'to_json', 'list_to_json'] if wizard else []))
+        return dict({'op': 'dump', 'cls': nm, 'expr': f'{nm}({", ".join(args)})', 'via': via}, **uses)
+    ops = [srcs[0]] + ([binds[names[0]]] if names[0] in binds else [])
+    defined = 1
+    for _ in range(rng.randint(3, 9)):
+        # define the next class of the chain now?
+        while defined < depth and rng.random() < 0.45:
+            ops.append(srcs[defined])
+            if names[defined] in binds:
+                ops.append(binds[names[defined]])
+            defined += 1
+        ops.append(use(rng.randrange(defined)))
+    while defined < depth:
+        ops.append(srcs[defined])
+        if names[defined] in binds:
+            ops.append(binds[names[defined]])
+        ops.append(use(defined))
+        defined += 1
+    ops.append(use(depth - 1))
+    return ops
+
+
+FAMILIES = [fam_nested_sub, fam_path, fam_path, fam_bad_condition, fam_strict, fam_spellings, fam_subclass, fam_subclass, fam_subtype, fam_bind,
+            fam_hooks, fam_hooks, fam_bind_late, fam_bind_late, fam_bind_late, fam_inherit, fam_inherit]
 
 
 def gen_history(rng):
@@ -278,10 +535,12 @@ def check_history(ctx, kind, case_index, ops, attribute=attribute_nested_leak):
 def run(ctx: C.Ctx):
     rng = ctx.rng
     ctx.rule = ('histories of 4..40 operations over 1..3 interleaved class families (strict unknown-key class; key-spelling class; base '
-                'class + subclass defined after use; novel value subtypes on dump; Meta bound before first use), each run in a forked '
-                'pristine child; every load/dump position is re-run alone (needed definitions + the op) in another pristine child and the '
+                'class + subclass defined after use; novel value subtypes on dump; Meta bound before first use; classes that are their own '
+                'dumper / loader with overridden hooks and a subclass defined before / after use; LoadMeta / DumpMeta bound after '
+                'operations of the other kind, tags and Unions; inheritance chains on the default and the v1 engine through every entry '
+                'point), each run in a forked pristine child; every load/dump position is re-run alone (needed definitions + the op) in another pristine child and the '
                 'two outcomes compared. Non-trivial = distinct (history, position) after the first op.')
-    n = ctx.quick(110, 1500)
+    n = ctx.quick(170, 2200)
     for i in range(n):
         if ctx.done(i):
             break
